@@ -226,7 +226,99 @@ func genUUID(e *emitter, rng *rand.Rand, thorough bool) {
 	}
 }
 
-func genURL(e *emitter, rng *rand.Rand, thorough bool)   {}
+var urlSchemes = []string{"http", "https", "ftp", "ftps", "ssh", "sftp", "smtp", "smtps", "imap", "imaps", "pop3", "pop3s", "telnet", "file", "data", "ws", "wss", "git", "svn", "ldap", "ldaps", "mailto", "news", "nntp", "irc", "ircs", "rtsp", "rtmp", "sip", "sips", "xmpp"}
+
+func genURL(e *emitter, rng *rand.Rand, thorough bool) {
+	// schemes and near-miss schemes
+	cands := map[string]bool{}
+	for _, sc := range urlSchemes {
+		cands[sc] = true
+		cands[strings.ToUpper(sc)] = true
+		cands[strings.ToUpper(sc[:1])+sc[1:]] = true
+		cands[sc[:len(sc)-1]] = true
+		cands[sc+"s"] = true
+		cands[sc+"x"] = true
+		cands["x"+sc] = true
+		cands[sc[1:]] = true
+		cands[sc+"+"+sc] = true
+		cands[sc+"-"] = true
+		cands[sc+"."] = true
+		cands[":"+sc] = true
+		cands[" "+sc] = true
+		cands[sc+" "] = true
+		for i := range sc { // one substitution
+			b := []byte(sc)
+			b[i] = "az09+-.A_:/"[rng.Intn(11)]
+			cands[string(b)] = true
+		}
+	}
+	for _, x := range []string{"", "a", "z", "gopher", "javascript", "tel", "urn", "h", "1http", "+http", "ht tp", "http\x00", "h\xc3\xa9", "\xff"} {
+		cands[x] = true
+	}
+	seps := []string{":", ":/", "://", "", "//", ":///", "::", ":/ /", ": //", ";//"}
+	tails := []string{"", "example.com", "example.com/path?q=1#f", "ex ample", "ex\tample", "ex\x7fample", "\x00", "x\n", "é", "\xff\xfe", "[::1]:80/"}
+	for c := range cands {
+		for _, sep := range seps {
+			e.emit(c + sep)
+			for _, t := range tails {
+				e.emit(c + sep + t)
+			}
+		}
+	}
+	// every first host byte 0..255 for every real scheme (and a few near misses)
+	for _, sc := range urlSchemes {
+		for v := 0; v < 256; v++ {
+			e.emit(sc + "://" + string([]byte{byte(v)}))
+			e.emit(sc + "://" + string([]byte{byte(v)}) + "ost/p")
+			e.emit(sc + ":" + string([]byte{byte(v)}))
+			if thorough {
+				e.emit(sc + ":/" + string([]byte{byte(v)}) + "x")
+				e.emit(sc + "://h" + string([]byte{byte(v)}))
+				e.emit(sc + string([]byte{byte(v)}) + "//host")
+				e.emit(string([]byte{byte(v)}) + sc[1:] + "://host")
+			}
+		}
+	}
+	// forbidden byte at every position of members
+	for _, m := range []string{"http://example.com/a", "mailto:user@example.com", "file:/etc/passwd", "data:text/plain,Hi", "xmpp://a"} {
+		for pos := 0; pos <= len(m); pos++ {
+			for _, v := range []byte{' ', 0, 1, 9, 10, 13, 31, 127, 128, 255, ':', '/'} {
+				e.emit(m[:pos] + string([]byte{v}) + m[pos:])
+				if pos < len(m) {
+					b := []byte(m)
+					b[pos] = v
+					e.emit(string(b))
+				}
+			}
+		}
+	}
+	// exhaustive short strings over a scheme-aware alphabet
+	alpha := []string{"ws", "h", ":", "/", "a", "[", " ", "\x7f", "W", "-", "é", "file"}
+	maxn := 4
+	if thorough {
+		maxn = 5
+	}
+	var rec func(prefix string, n int)
+	rec = func(prefix string, n int) {
+		e.emit(prefix)
+		if n == 0 {
+			return
+		}
+		for _, a := range alpha {
+			rec(prefix+a, n-1)
+		}
+	}
+	rec("", maxn)
+	n := 3000
+	if thorough {
+		n = 100000
+	}
+	for i := 0; i < n; i++ {
+		sc := urlSchemes[rng.Intn(len(urlSchemes))]
+		e.emit(sc + seps[rng.Intn(3)] + randBytes(rng, rng.Intn(6)))
+		e.emit(randBytes(rng, rng.Intn(12)))
+	}
+}
 func genEmail(e *emitter, rng *rand.Rand, thorough bool) {}
 func genAscii(e *emitter, rng *rand.Rand, thorough bool) {}
 func genUTF8(e *emitter, rng *rand.Rand, thorough bool)  {}
